@@ -345,6 +345,20 @@ def flipBit : Bytes → Nat → Bytes
   | [], _ => []
   | b :: rest, i => if i < 8 then flipByte b (7 - i) :: rest else b :: flipBit rest (i - 8)
 
+/-- the network layer with bit `i` of its source / destination address flipped (the addresses are covered by
+    the transport checksum through the pseudo-header) -/
+def Net.flipSrc : Net → Nat → Net
+  | .v4 s d, i => .v4 (flipBit s i) d
+  | .v6 s d, i => .v6 (flipBit s i) d
+
+def Net.flipDst : Net → Nat → Net
+  | .v4 s d, i => .v4 s (flipBit d i)
+  | .v6 s d, i => .v6 s (flipBit d i)
+
+def Net.addrBits : Net → Nat
+  | .v4 _ _ => 32
+  | .v6 _ _ => 128
+
 /-! ### Packet.VerifyChecksums (packet.go, after proposed_fixes/cksum-3-packet-verify-network-layer)
 
   The loop over the decoded layers.  Each layer is represented by what its VerifyChecksum returns
